@@ -1137,6 +1137,7 @@ def run(ctx):
         "seeds": len(progen.seeds()), "extras": len(extras()), "stdlib_modules": n_std,
         "sharp_values": SHARP, "cross_pairs": len(CROSS), "metric_subsets": 8})
     ctx.note("evaluations_per_subset", per)
+    ctx.note("child_cpu_seconds", round(c.get("child_cpu_ms", 0) / 1000))
     ctx.exhaustive = not ctx.quick
     ctx.rule = ("one evaluation = one call f(a, b) of an instrumented module (one metric subset) compared with the "
                 "same call of the plain module (or one stdlib import / smoke call); non-trivial = distinct "
